@@ -958,7 +958,7 @@ def _cases(tier: str) -> List[Dict[str, Any]]:
     for nm in (".", "..", "", "x"):
         for fld in IMG_FIELDS:
             for val in IMG_FIELD_VALUES:
-                for kind in (("raw",) if tier == "quick" else ("raw", "bmp8gray", "jpg")):
+                for kind in ("raw", "bmp8gray", "jpg"):
                     cs.append({"slots": [("image-name", "lit:" + nm)], "kind": kind, "otype": "text", "img_field": (fld, val)})
     # k same-named exports (k pages) into a directory that may already hold NAME.ext / NAME.0.ext / NAME.1.ext
     for nm in META_NAMES:
